@@ -85,7 +85,7 @@ Definition graft (g' g snap : state) : state :=
        (log g') (nchg g') (evn g').
 
 Definition mon_step (g : state) (o : op) (ob : option bool) (snap : state) : state :=
-  graft (fst (step_gen true ob g o)) g snap.
+  graft (fst (step_gen true true ob g o)) g snap.
 
 (** * Timing clauses, executable (evaluated by the monitor on every snapshot) *)
 
